@@ -390,12 +390,21 @@ impl Monitor for ReopenMonitor {
 fn c02_large_scenario(ctx: &Ctx, case: u64, rep: &mut Report) {
     use crate::engine::OpenHow;
     let mut done: Vec<Step> = Vec::new();
-    let n_streams: usize = if ctx.quick() { 116 } else { 250 };
+    // shards 0, 8: v3 past the first (thorough: second) DIFAT sector; shard 4: v4 past 1024
+    // sectors (second FAT sector); shard 12: v4 with > 1024 mini sectors and > 32 entries
+    let variant = (ctx.shard / 4) % 4;
+    let (version, n_streams, stream_len): (Version, usize, usize) = match variant {
+        1 => (Version::V4, 70, 70000),
+        3 => (Version::V4, 120, 1500),
+        _ => (Version::V3, if ctx.quick() { 116 } else { 250 }, 65536),
+    };
     let res = guard::catch(|| -> Result<(), Fail> {
-        let mut sess = Session::create(Version::V3, None).map_err(|e| ("create | ok | err".to_string(), format!("{e}")))?;
+        let mut sess = Session::create(version, None).map_err(|e| ("create | ok | err".to_string(), format!("{e}")))?;
         let mut last_fat = 0u32;
+        let mut last_minifat = 0u32;
+        let mut last_dir = 0u32;
         for k in 0..n_streams {
-            for st in [Step::HOpen { slot: 0, path: format!("/s{k}"), how: OpenHow::Create }, Step::HWriteAll { slot: 0, len: 65536 }, Step::HClose { slot: 0 }] {
+            for st in [Step::HOpen { slot: 0, path: format!("/s{k}"), how: OpenHow::Create }, Step::HWriteAll { slot: 0, len: stream_len + (k % 3) }, Step::HClose { slot: 0 }] {
                 done.push(st.clone());
                 if sess.run(&st).is_some() {
                     rep.count("abandoned_model_divergence");
@@ -408,7 +417,13 @@ fn c02_large_scenario(ctx: &Ctx, case: u64, rep: &mut Report) {
             let fat_grew = n_fat != last_fat;
             last_fat = n_fat;
             // every new FAT sector near / beyond the header DIFAT's capacity, plus a sparse sample
-            if (fat_grew && n_fat >= 108) || k % 25 == 24 || k + 1 == n_streams {
+            let n_minifat = u32::from_le_bytes([bytes[64], bytes[65], bytes[66], bytes[67]]);
+            let n_dir = u32::from_le_bytes([bytes[40], bytes[41], bytes[42], bytes[43]]);
+            let minifat_grew = n_minifat != last_minifat;
+            let dir_grew = n_dir != last_dir;
+            last_minifat = n_minifat;
+            last_dir = n_dir;
+            if (fat_grew && (n_fat >= 108 || version == Version::V4)) || minifat_grew || dir_grew || k % 25 == 24 || k + 1 == n_streams {
                 let exp = sess.model.dump();
                 for mode in [Mode::Permissive, Mode::Strict] {
                     let obs = engine::dump_bytes(&bytes, mode).map_err(|w| (format!("crash-point | reopen {:?} | open failed", mode), format!("large scenario: after stream {k} ({n_fat} FAT sectors, {n_difat} DIFAT sectors): {w}")))?;
@@ -421,11 +436,14 @@ fn c02_large_scenario(ctx: &Ctx, case: u64, rep: &mut Report) {
                 }
                 rep.max("max_fat_sectors", n_fat as u64);
                 rep.max("max_difat_sectors", n_difat as u64);
+                rep.max("max_minifat_sectors", n_minifat as u64);
+                rep.max("max_dir_sectors_v4", n_dir as u64);
+                rep.count(&format!("large_scenario.variant{variant}.crash_points"));
             }
         }
         Ok(())
     });
-    let witness = ctx.witness(case, vec![("large_scenario", J::s("v3 file grown past 109 FAT sectors in 64 KiB streams")), ("steps_executed", J::Int(done.len() as i128)), ("last_steps", steps_json(&done[done.len().saturating_sub(6)..]))]);
+    let witness = ctx.witness(case, vec![("large_scenario", J::s(format!("variant {variant}: {:?} file grown by {n_streams} streams of ~{stream_len} bytes", version))), ("steps_executed", J::Int(done.len() as i128)), ("last_steps", steps_json(&done[done.len().saturating_sub(6)..]))]);
     match res {
         Ok(Ok(())) => rep.count("large_scenarios"),
         Ok(Err((sig, detail))) => rep.finding(sig, detail, witness),
@@ -583,10 +601,11 @@ pub fn run_c03(ctx: &Ctx, rep: &mut Report) {
 /// then shrink / remove / re-create to exercise reuse at that scale.
 fn large_scenario(ctx: &Ctx, case: u64, rng: &mut Rng, rep: &mut Report) {
     use crate::engine::OpenHow;
-    let which = ctx.shard % 4;
+    let which = ctx.shard % 5;
     // 0: v3 with a DIFAT sector (> 109 FAT sectors = > 13952 sectors = 7.2 MB)
-    // 1: v3 many small streams (directory + MiniFAT sectors)   2: v4 several FAT sectors   3: v3 two DIFAT sectors (thorough)
-    let version = if which == 2 { Version::V4 } else { Version::V3 };
+    // 1: v3 many small streams (directory + MiniFAT sectors)   2: v4 several FAT sectors (> 1024 sectors)
+    // 3: v3 two DIFAT sectors (thorough)   4: v4 many small streams (> 1024 mini sectors, > 32 directory entries)
+    let version = if which == 2 || which == 4 { Version::V4 } else { Version::V3 };
     let mut done: Vec<Step> = Vec::new();
     let res = guard::catch(|| -> Result<(), Fail> {
         let mut sess = Session::create(version, None).map_err(|e| ("create | ok | err".to_string(), format!("{e}")))?;
@@ -599,7 +618,7 @@ fn large_scenario(ctx: &Ctx, case: u64, rng: &mut Rng, rep: &mut Report) {
         };
         let (n_streams, size): (usize, usize) = match which {
             0 => (116, 65536),
-            1 => (300, 300),
+            1 | 4 => (300, 300),
             2 => (70, 70000),
             _ => {
                 if ctx.quick() {
@@ -612,7 +631,7 @@ fn large_scenario(ctx: &Ctx, case: u64, rng: &mut Rng, rep: &mut Report) {
         run(&mut sess, Step::Api(Op::CreateStorage("/big".into())), &mut done)?;
         for k in 0..n_streams {
             let p = format!("/big/s{k}");
-            let sz = if which == 1 { (k * 37) % 4300 } else { size };
+            let sz = if which == 1 || which == 4 { (k * 37) % 4300 } else { size };
             run(&mut sess, Step::HOpen { slot: 0, path: p, how: OpenHow::Create }, &mut done)?;
             run(&mut sess, Step::HWriteAll { slot: 0, len: sz }, &mut done)?;
             run(&mut sess, Step::HClose { slot: 0 }, &mut done)?;
@@ -636,7 +655,7 @@ fn large_scenario(ctx: &Ctx, case: u64, rng: &mut Rng, rep: &mut Report) {
         for k in 0..(n_streams / 4) {
             let p = format!("/big/r{k}");
             run(&mut sess, Step::HOpen { slot: 0, path: p, how: OpenHow::CreateNew }, &mut done)?;
-            run(&mut sess, Step::HWriteAll { slot: 0, len: if which == 1 { 100 + k } else { size / 2 + k } }, &mut done)?;
+            run(&mut sess, Step::HWriteAll { slot: 0, len: if which == 1 || which == 4 { 100 + k } else { size / 2 + k } }, &mut done)?;
             run(&mut sess, Step::HClose { slot: 0 }, &mut done)?;
         }
         let img = check_image(&sess.shared.bytes(), rep).map_err(|(s, d)| (s, format!("large scenario {which}, after re-create: {d}")))?;
